@@ -3,6 +3,7 @@ import Driver.Strings
 import Driver.Topo
 import Driver.CpuKinds
 import Driver.MemAttrs
+import Driver.TypeStr
 open Driver
 
 def main (args : List String) : IO UInt32 := do
@@ -23,6 +24,9 @@ def main (args : List String) : IO UInt32 := do
     return 0
   | ["memattrs"] =>
     lineLoop stdin stdout (MemAttrsEng.init 4) MemAttrsEng.step
+    return 0
+  | ["typestr"] =>
+    lineLoop stdin stdout TypeStrEng.init TypeStrEng.step
     return 0
   | _ =>
     IO.eprintln "usage: hwmodel <engine>"
